@@ -483,13 +483,16 @@ func (e exec) Do(line string) string {
 			f = f[1:] // first field is the sentence
 		}
 		k := f[0]
+		if op == "escb" && !strings.HasPrefix(out, "PANIC") && out != "HANG" && out != "bad-op" {
+			k = "text" // the output is the printed text itself
+		}
 		if k == "err" && len(f) > 1 {
 			k = "err-" + f[1]
 		}
 		if k == "ok" && (op == "parse" || op == "gs") && len(f) == 4 {
 			k = "ok-reparse-" + strings.SplitN(f[3], ":", 2)[0]
 		}
-		if k == "ok" && op == "rt" && len(f) > 3 {
+		if k == "ok" && (op == "rt" || op == "rtb") && len(f) > 3 {
 			k = "ok-reparse-" + f[3]
 		}
 		e.r.Count("outcome:" + op + ":" + k)
@@ -568,6 +571,42 @@ func (exec) do(line string) string {
 			}
 			return fmt.Sprintf("ok %s %s ok %s %s %s %s", o.d1, hx(o.p1), o.d2, hx(o.p2), m1, matchBits(o.q2, jsons))
 		})
+	case "rtb":
+		if len(f) != 6 {
+			return "bad-op"
+		}
+		in, ok := parseRT(f[1:6])
+		if !ok {
+			return "bad-op"
+		}
+		return guarded(func() string { return doRTB(in) })
+	case "lexb":
+		if len(f) != 2 {
+			return "bad-op"
+		}
+		text, ok := unhx(f[1])
+		if !ok {
+			return "bad-op"
+		}
+		return guarded(func() string { return lexbOut(text) })
+	case "units":
+		if len(f) != 2 {
+			return "bad-op"
+		}
+		text, ok := unhx(f[1])
+		if !ok {
+			return "bad-op"
+		}
+		return guarded(func() string { return unitsOut(text) })
+	case "escb":
+		if len(f) != 2 {
+			return "bad-op"
+		}
+		text, ok := unhx(f[1])
+		if !ok {
+			return "bad-op"
+		}
+		return guarded(func() string { return escbOut(text) })
 	case "gs":
 		if len(f) != 9 {
 			return "bad-op"
